@@ -113,6 +113,23 @@ func main() {
 			}
 		}
 	}
+	// G2b: numeric boundary sweep (singles over the boundary set, pairs over the overflow set)
+	var g2b []Case
+	for _, s := range specs {
+		reps := langs[s.Lang].rep
+		if len(reps) > 4 {
+			reps = []string{reps[0], reps[2], reps[4]} // log, SQL metric, in-process metric
+		}
+		if !thorough && len(reps) > 2 {
+			reps = reps[1:] // quick: the metric queries carry the arithmetic on the window
+		}
+		for _, q := range reps {
+			for _, pp := range boundaryCases(s, thorough) {
+				id++
+				g2b = append(g2b, Case{ID: id, Now: runNow, Group: "G2b", Route: s.Key, Query: q, Params: pp, Fault: Fault{Shape: "1batch"}})
+			}
+		}
+	}
 	// G3 bases: fault-free runs of every shape
 	var bases []Case
 	for _, s := range specs {
@@ -136,7 +153,8 @@ func main() {
 				if vi > 0 && !thorough && q != reps[1] && q != reps[2] {
 					continue
 				}
-				for _, sh := range []string{"empty", "1batch", "3batches", "edge", "3batches_mixed"} {
+				for _, sh := range []string{"empty", "1batch", "3batches", "edge", "3batches_mixed",
+					"rogue_before", "rogue_after", "rogue_far", "3batches_rogue", "unordered", "dups"} {
 					c := Case{Group: "G3", Route: s.Key, Query: q, Params: v, Fault: Fault{Shape: sh}}
 					add(c)
 					bases = append(bases, cases[len(cases)-1])
@@ -163,7 +181,7 @@ func main() {
 	var faults []Case
 	for _, b := range bases {
 		res := results[b.ID]
-		if res == nil || b.Fault.Shape == "edge" || b.Fault.Shape == "3batches_mixed" {
+		if res == nil || (b.Fault.Shape != "empty" && b.Fault.Shape != "1batch" && b.Fault.Shape != "3batches") {
 			continue
 		}
 		for nth, rows := range res.Rows {
@@ -190,6 +208,12 @@ func main() {
 		results[k] = v
 	}
 	r.Extra["phase2_faults_wall_s"] = time.Since(t0).Seconds()
+	t0 = time.Now()
+	for k, v := range p.runAll(g2b) {
+		results[k] = v
+	}
+	r.Extra["phase2b_boundary_wall_s"] = time.Since(t0).Seconds()
+	cases = append(cases, g2b...)
 	t0 = time.Now()
 	for k, v := range p.runAll(g2) {
 		results[k] = v
